@@ -27,6 +27,8 @@ RBW_X = [
     "array big[1000]; val put = 1; proc main() is { put(big[999] + 65, 0); put(big[0] + 66, 0); 0(big[500]) }",
     "proc main() is var a; var b; var c; { if a = 0 then 0(b) else 0(c) }",
 ]
+LONG_X = ["var g; proc main() is { g := 0; while g < 150000 do g := g + 1; 0(7) }",
+          "val put = 1; val get = 2; var g; proc main() is { g := 0; while g < 120000 do g := g + 1; put('K', 256); put(get(0), 256); 0(9) }"]
 LOOP_X = ["proc main() is while true do skip", "var g; proc main() is { g := 0; while g >= 0 do g := g + 1 }"]
 
 
@@ -147,6 +149,35 @@ def memcheck_worker(job):
     return n, bad
 
 
+def long_runs(v, cli):
+    """Runs of more than a million instructions, traced and untraced, with no cycle limit given: -t must change neither
+    the exit status nor the simout files nor the input consumed (the trace itself is discarded)."""
+    hx = xrun.build()
+    res = common.run_harness(hx, [(i, {"src": s, "want": "noexec"}) for i, s in enumerate(LONG_X)], args=["cases"], tag="c12long")
+    for i, src in enumerate(LONG_X):
+        r = res[str(i)]
+        if r["status"] != "ok" or not r["out"] or not r["out"].get("ok"):
+            continue
+        outs = []
+        for flags in ([], ["-t"]):
+            d = common.scratch("c12long")
+            p = os.path.join(d, "p.bin")
+            open(p, "wb").write(common.unhex(r["out"]["file"]))
+            try:
+                pr = subprocess.run([os.path.join(cli, "hexsim")] + flags + [p], input=b"Zq", stdout=subprocess.DEVNULL, stderr=subprocess.PIPE,
+                                    cwd=d, timeout=600)
+                files = {n: open(os.path.join(d, n), "rb").read() for n in sorted(os.listdir(d)) if n.startswith("simout")}
+                outs.append((pr.returncode, files))
+            except subprocess.TimeoutExpired:
+                outs.append(("timeout", {}))
+            shutil.rmtree(d, ignore_errors=True)
+        v.cov["evaluations"] += 2
+        v.count("long_traced_pairs", 1)
+        if outs[0] != outs[1]:
+            v.violation("long-run:trace-changes-behaviour", {"source": src, "untraced": [outs[0][0], {k: x.hex() for k, x in outs[0][1].items()}],
+                                                              "traced": [outs[1][0], {k: x.hex() for k, x in outs[1][1].items()}]})
+
+
 def run(tier, replay=None):
     v = Verdict("C12", tier)
     cli = build()
@@ -171,6 +202,7 @@ def run(tier, replay=None):
     res = common.run_harness(hsim, cases, args=["cases"], tag="c12", timeout=6 * 3600)
     groups = {}
     rbw_total = 0
+    leaves_range = set()
     for (cid, f), (i, fill, trace, mc) in zip(cases, meta):
         tag, blob, inp, kind = imgs[i]
         r = res[str(cid)]
@@ -179,6 +211,8 @@ def run(tier, replay=None):
             v.violation("inproc:abnormal", {"image": tag, "fill": fill, "status": r["status"], "err": r["err"][-300:]})
             continue
         o = r["out"]
+        if o["ended"] == "left-range":
+            leaves_range.add(i)      # accesses outside the 200000-word memory: hexsim has no defined behaviour there (C02's range)
         rbw_total += o["reads_before_write"]
         if o["ended"] == "mismatch":
             # with clean (zero) storage a divergence cannot come from uninitialised memory
@@ -206,6 +240,8 @@ def run(tier, replay=None):
     nst = 6 if tier == "quick" else 8
     states = host_states(rnd, nst)
     nexe = 1000 if tier == "quick" else 30000
+    v.count("images_leaving_the_memory_range_excluded", len(leaves_range))
+    imgs = [im for i, im in enumerate(imgs) if i not in leaves_range]
     sel = [im for im in imgs if im[3] != "defined"] + [im for im in imgs if im[3] == "defined"]
     sel = sel[:max(50, nexe // nst)]
     cuts = [1, 7, 100, 5000]
@@ -216,6 +252,7 @@ def run(tier, replay=None):
         for code, rep in bad:
             v.violation(code, rep)
     v.cov["host_states"] = [s["name"] for s in states]
+    long_runs(v, cli)
     # ---- (c) memcheck
     nvg = 48 if tier == "quick" else 2000
     vsel = [im for im in imgs if im[3] == "rbw"][:nvg // 2] + [im for im in imgs if im[3] != "rbw"][:nvg // 2]
